@@ -88,6 +88,7 @@ if 'string_parts' in p:
 if p.get('search'):
     nums = ['0', '1', '7', '10', '1001', '1005', '.5', '0.25', '3.75', '1.001', '2.007', '0.9999', '1.5', '0.0009', '7.9996', '3.125', '0.1', '0.7', '1.1', '4.35', '8.003', '16.001', '0.001', '123.456', '0.3']
     nums += ['%d.%03d' % (a, b) for a in range(0, 3) for b in range(0, 1000, 7)]
+    nums += ['0.24' + '9' * k for k in (20, 27, 28, 31, 40)] + ['3.' + '9' * k for k in (27, 28, 29, 35)] + ['1.0000000000000000001', '9007199254740993', '0.' + '0' * 30 + '1']
     for fn in p.get('functions', ['parse_cpu_in_mcpu', 'parse_memory_in_bytes', 'parse_storage_in_bytes']):
         units = ['', 'm'] if fn == 'parse_cpu_in_mcpu' else list(FACT)
         for num in nums:
@@ -142,6 +143,19 @@ def _float(eng, st, args, kw, node):
     return z3.ToReal(x) if z3.is_int(x) else x
 
 
+def _decimal(eng, st, args, kw, node):
+    """decimal.Decimal(str) is exact, but every ARITHMETIC operation on Decimals rounds to the context precision (28 significant
+    digits by default): a Decimal is therefore an inexact number like a float - a plain real term, whose operations go through
+    the relative-error model (2**-53 per operation over-approximates 10**-27: sound, it only admits more rounding)"""
+    a = args[0]
+    if isinstance(a, z3.ExprRef) and a.sort() == pyvc.U:
+        return _dec(eng, a)
+    if isinstance(a, SFrac):
+        return a.term
+    x = eng.num(a)
+    return z3.ToReal(x) if z3.is_int(x) else x
+
+
 def _fraction(eng, st, args, kw, node):
     a = args[0]
     if isinstance(a, z3.ExprRef) and a.sort() == pyvc.U:
@@ -179,8 +193,8 @@ def value_contract(fn, regex_name, kind, units):
             'float': _float,
             'Fraction': _fraction,
             'fractions.Fraction': _fraction,
-            'Decimal': _fraction,
-            'decimal.Decimal': _fraction,
+            'Decimal': _decimal,
+            'decimal.Decimal': _decimal,
             'floor_r': lambda eng, st, args, kw, node: z3.ToInt(eng.num(args[0])),
             'ceil_r': lambda eng, st, args, kw, node: (lambda x: z3.If(z3.ToReal(z3.ToInt(x)) == x, z3.ToInt(x), z3.ToInt(x) + 1))(eng.num(args[0])),
         },
@@ -245,6 +259,12 @@ def build(ctx):
             shape_ok = False
         ctx.add(core.decided('%s/pattern-shape-is-[+]?(NUM)(UNIT)?B?' % fn, shape_ok, pat, kind='scan'))
         # (c) arithmetic of the real body
+        if kind != 'cpu':
+            # every unit spelling the pattern admits must be a documented unit with a conversion factor (a spelling the grammar
+            # accepts but the arithmetic does not know cannot be given its value)
+            unknown = sorted(u for u in units if u not in SPEC_FACTOR)
+            ctx.add(core.decided('%s/every-unit-of-the-pattern-is-a-documented-unit' % fn, not unknown, 'units without a specified factor: %r' % unknown, kind='scan'))
+            units = [u for u in units if u in SPEC_FACTOR]
         c = value_contract(fn, regex_name, kind, [None] + sorted(units))
         eng = pyvc.Engine(ctx, c)
 
